@@ -181,6 +181,9 @@ func c13Routes(out *verifh.Out, id string, rms []c13RM, f c13Fail, withMsgs bool
 	for _, rm := range rms {
 		a := netip.MustParseAddr(rm.Dst)
 		attrs := rtnetlink.RouteAttributes{Dst: net.IP(a.AsSlice()), OutIface: rm.Oif, Table: unix.RT_TABLE_MAIN}
+		// (a default route arrives from the kernel WITHOUT a destination attribute; the real transport rtnlExecute makes it
+		// explicit -- the netns case below goes through it; a scripted message with a nil destination is, by the
+		// repository's own test, an invariant violation that panics)
 		pref := verifh.None()
 		if rm.Pref >= 0 {
 			p := uint8(rm.Pref)
@@ -393,6 +396,28 @@ func TestVerifC13Addresser(t *testing.T) {
 					}
 				}
 				return false
+			}
+			// a default route anchored on lo (a common fallback: `unreachable default metric 4096`) is a loopback route
+			// like any other; its dump message has no destination attribute
+			if ip("-6", "route", "add", "unreachable", "default", "metric", "4096") == nil {
+				var rs []Route
+				var derr error
+				var pan any
+				func() {
+					defer func() { pan = recover() }()
+					rs, derr = NewAddresser().LoopbackRoutes()
+				}()
+				hasDefault := false
+				for _, r := range rs {
+					if r.Prefix == netip.MustParsePrefix("::/0") {
+						hasDefault = true
+					}
+				}
+				if pan != nil || derr != nil || !hasDefault {
+					res <- fmt.Sprintf("with `unreachable default` in the main table (the kernel anchors it on lo) LoopbackRoutes gives %v (error %v, panic %v), want the routes including ::/0", rs, derr, pan)
+					return
+				}
+				_ = ip("-6", "route", "del", "unreachable", "default", "metric", "4096")
 			}
 			later, err1 := a.LoopbackRoutes()
 			fresh, err2 := NewAddresser().LoopbackRoutes()
